@@ -278,10 +278,13 @@ AvPairsEncode(pairs) == IF pairs = <<>> THEN <<>>
 AvEncode(pairs) == AvPairsEncode(pairs) \o <<0, 0, 0, 0>>
 
 PadByte == 238
+(* nover: a CHALLENGE without NTLMSSP_NEGOTIATE_VERSION may omit the 8-octet Version field altogether (older
+   implementations; the payload then starts at offset 48) -- still well-formed, the descriptors say where the fields are *)
+OmitsVersion(c, pl) == "nover" \in DOMAIN pl /\ pl.nover /\ FVersion \notin c.flags
 ChallengeEncode(c, pl) ==
     LET a == IF pl.infoFirst THEN c.tinfo ELSE c.tname
         z == IF pl.infoFirst THEN c.tname ELSE c.tinfo
-        oa == 56 + pl.pre
+        oa == (IF OmitsVersion(c, pl) THEN 48 ELSE 56) + pl.pre
         oz == oa + Len(a) + pl.mid
         on == IF pl.infoFirst THEN oz ELSE oa
         oi == IF pl.infoFirst THEN oa ELSE oz IN
@@ -289,7 +292,7 @@ ChallengeEncode(c, pl) ==
     \o DescEncode(Len(c.tname), Len(c.tname) + pl.slack, on)
     \o FlagBytes(c.flags) \o c.sc \o Zeros(8)
     \o DescEncode(Len(c.tinfo), Len(c.tinfo) + pl.slack, oi)
-    \o (IF FVersion \in c.flags THEN c.ver ELSE Zeros(8))
+    \o (IF FVersion \in c.flags THEN c.ver ELSE IF OmitsVersion(c, pl) THEN <<>> ELSE Zeros(8))
     \o Rep(PadByte, pl.pre) \o a \o Rep(PadByte, pl.mid) \o z \o Rep(PadByte, pl.post)
 
 NaturalLayout == [infoFirst |-> FALSE, pre |-> 0, mid |-> 0, post |-> 0, slack |-> 0]
